@@ -3,6 +3,10 @@ Driver for C16: reads cases of op lines produced by the Go harness (which ran th
 re-parsed every issued query text with the real influxql parser), and for every line judges
   * the property itself on the OBSERVED output (Kap/Spec/C16.lean)  → SPECFAIL, checked first;
   * observed = model (Kap/Model/C16.lean)                            → MISMATCH.
+`sched` ops carry the host's zone (`tz=`, seconds east of UTC; the harness assigns time.Local) and may name hours /
+minutes / seconds (`cz=`): the model evaluates them with `cronZoneNext`. `cronlive` ops ran the REAL cronTicker.Start for
+one second in a fixed zone: the historical texts of the span must be the live texts (`histIsLive`), the live ticks must
+be the seconds at which the shape is due (`liveFollows`), and both must be what `cronLiveTicks` / `histTicks` give.
 `now` of the machine is not on the wire: spans are generated before 2026 or after 2100 and the model
 runs with `nowAssumed` (2080), which gives the same answers as any real clock in between.
 -/
@@ -303,6 +307,16 @@ def judgeSched (a : Acc) (l : String) (op obs : List String) : J Acc := do
   let fires : List Int := match kvGet kv "fires" with
     | some f => (f.splitOn ",").filterMap String.toInt?
     | none => []
+  -- the host's zone for this op (seconds east of UTC), and a cron naming hours;minutes;seconds on the host's clock
+  let tzOff : Int := ((kvInt kv "tz").getD 0) * 1000000000
+  let tod : List Int ← match kvGet kv "cz" with
+    | none => pure []
+    | some cz => match (cz.splitOn ";").mapM (fun f => (f.splitOn "+").mapM String.toInt?) with
+      | some [hs, ms, ss] =>
+        pure (hs.flatMap (fun h => ms.flatMap (fun m => ss.map (fun x => (h * 3600 + m * 60 + x) * 1000000000))))
+      | _ => bad l
+  if cron == -2 && !(!tod.isEmpty && tod.all (fun x => decide (0 ≤ x) && decide (x < dayNs)) &&
+      (tod.zip (tod.drop 1)).all (fun p => decide (p.1 < p.2))) then bad s!"cz is not an ascending list of times of day: {l}"
   -- fill option and tag dimensions as configured, in the rendering the harness uses for issued texts
   let fillCfg := match (kvGet kv "fill").getD "-" with
     | "-" => "null" | "null" => "null" | "0" => "number:0" | f => f
@@ -323,10 +337,10 @@ def judgeSched (a : Acc) (l : String) (op obs : List String) : J Acc := do
     let K := cron * 1000000000
     let next : Int → Option Int := match sch with
       | .every d x => fun t => some (tickerNext d x t)
-      | .cron => if cron < 0 then cronListNext fires else cronNext K
+      | .cron => if cron == -2 then cronZoneNext tod tzOff else if cron < 0 then cronListNext fires else cronNext K
     let specSch : Schedule := match sch with
       | .every d x => .every d x
-      | .cron => if cron < 0 then .cronList fires else .cronEvery K
+      | .cron => if cron == -2 then .cronZone tod tzOff else if cron < 0 then .cronList fires else .cronEvery K
     let gbCfg : Option (Int × Int) := if gbz then some (0, gbo) else if gb != 0 then some (gb, gbo) else none
     -- Query.Dimensions refuses a non-positive time dimension (before: accepted, and alignGroup divided by zero)
     if !validDims gbCfg then
@@ -430,8 +444,18 @@ def judgeSched (a : Acc) (l : String) (op obs : List String) : J Acc := do
       let a := a.addIf (!lt) "arbitrary-ticks"
       let a := a.addIf (nodes.length > 1) "multi-node"
       let a := a.addIf (start < 0) "before-1970"
-      let a := a.addIf (cron < 0) "cron-ending"
-      let a := a.addIf (cron < 0 && lt && (firstLiveAfter specSch start (ticks.getLast?.getD start)).isNone) "cron-ended-before-stop"
+      let a := a.addIf (cron == -1) "cron-ending"
+      let a := a.addIf (cron == -1 && tzOff != 0) "cron-ending-host-not-utc"
+      let a := a.addIf (cron == -2) "cron-names-hours"
+      let a := a.addIf (cron == -2 && tzOff > 0) "cron-host-east-of-utc"
+      let a := a.addIf (cron == -2 && tzOff < 0) "cron-host-west-of-utc"
+      let a := a.addIf (cron == -2 && tzOff == 0) "cron-host-utc"
+      let a := a.addIf (cron == -2 && tzOff % 3600000000000 != 0) "cron-host-fractional-hour-zone"
+      -- a tick taken from the clock's NEXT day (the `none` branch of cronZoneNext), and a span over UTC's midnight only
+      let a := a.addIf (cron == -2 && ((start :: ticks).zip ticks).any (fun p => (p.1 + tzOff) / dayNs != (p.2 + tzOff) / dayNs)) "cron-next-day-on-host-clock"
+      let a := a.addIf (cron == -2 && ((start :: ticks).zip ticks).any (fun p => (p.1 + tzOff) / dayNs == (p.2 + tzOff) / dayNs)) "cron-later-same-host-day"
+      let a := a.addIf (cron == -2 && ((start :: ticks).zip ticks).any (fun p => p.1 / dayNs != p.2 / dayNs && (p.1 + tzOff) / dayNs == (p.2 + tzOff) / dayNs)) "cron-over-utc-midnight-same-host-day"
+      let a := a.addIf (cron == -1 && lt && (firstLiveAfter specSch start (ticks.getLast?.getD start)).isNone) "cron-ended-before-stop"
       let a := a.addIf (!ticks.isEmpty && gbCfg.isSome && ptMax.isSome) "batch-time-from-points"
       let a := a.addIf (!ticks.isEmpty && gbCfg.isSome && ptMax.isNone) "batch-time-grouped-no-points"
       let a := a.addIf (!ticks.isEmpty && gbCfg.isNone && ptMax.isSome) "batch-time-stop-despite-points"
@@ -439,6 +463,58 @@ def judgeSched (a : Acc) (l : String) (op obs : List String) : J Acc := do
       let a := a.add ("fill-" ++ fillCfg)
       let a := a.add ("tags-" ++ tagsCfg)
       pure { a with nt := a.nt || H.length ≥ 2 || (!lt && L.length ≥ 2) }
+
+/-! ### cronlive: the real cron ticker in a fixed zone, one second of wall clock -/
+
+def obsTick (o : ObsQ) : Option Int := o.cond.bind (fun c => c.timeLits.getLast?)
+
+def judgeCronLive (a : Acc) (l : String) (op obs : List String) : J Acc := do
+  let kv := op.drop 1
+  let some tz := kvInt kv "tz" | bad l
+  let some per := kvInt kv "per" | bad l
+  let some t0 := kvInt kv "from" | bad l
+  let some t1 := kvInt kv "to" | bad l
+  let some shapesS := kvGet kv "shapes" | bad l
+  let shapes := shapesS.splitOn ","
+  if obs == ["panic"] then .error (.specfail "no-crash-on-settings" s!"a cron task panicked: {l}")
+  if kvGet obs "st" != some "ok" || kvGet obs "l" != some "ok" || kvGet obs "h" != some "ok" then
+    bad s!"cron tasks did not run ({obs.take 3}): {l}"
+  if kvGet obs "stray" != some "0" then .error (.mismatch s!"queries that belong to no query node of the task: {kvGet obs "stray"}")
+  let mut a := a
+  let mut nt := false
+  let mut i := 0
+  for sh in shapes do
+    let some fS := kvGet obs s!"F{i}" | bad l
+    let some F := (if fS == "-" then some [] else (fS.splitOn ",").mapM String.toInt?) | bad l
+    let some L := (kvGet obs s!"L{i}").bind parseObsQs | bad l
+    let some H := (kvGet obs s!"H{i}").bind parseObsQs | bad l
+    let what := s!"host {tz} s east of UTC, cron shape {sh}, watched ({t0},{t1}] after a whole second"
+    -- (4) on the observed texts: the historical list of the span is the list the live ticks of the span issued
+    if !histIsLive (H.map (·.raw)) (L.map (·.raw)) then
+      .error (.specfail "historical-equals-live" s!"{what}: historical {(H.map (·.raw)).take 4} live {(L.map (·.raw)).take 4} ({L.length} live queries)")
+    -- (3) the live ticks are the scheduled times of the span
+    let some ticks := L.mapM obsTick | .error (.specfail "live-range-exact" s!"{what}: an issued text has no readable time bound")
+    if !liveFollows F t0 t1 ticks then
+      .error (.specfail "live-ticks-follow-cron" s!"{what}: live ticks {ticks.take 6} ({ticks.length}), due {F.filter (fun T => decide (t0 < T) && decide (T ≤ t1))}")
+    -- (1)(2) each live query covers [tick − period, tick)
+    for (o, T) in L.zip ticks do
+      let r := rangeOfTick 0 per T
+      match o.cond with
+      | some c =>
+        if !rangeHolds none c r.1 r.2 then .error (.specfail "live-range-exact" s!"{what}: tick {T}: issued {o.raw}")
+      | none => .error (.specfail "live-range-exact" s!"{what}: tick {T}: no readable condition")
+    -- model: cronTicker.Start and Queries walk the same chain of Next answers (the schedule goes on after the window)
+    let next := cronListNext (F ++ [t1 + dayNs])
+    let liveM := (cronLiveTicks next 8 t0).takeWhile (fun c => decide (c ≤ t1))
+    if liveM != ticks then .error (.mismatch s!"{what}: live ticks {ticks} differ from the model's {liveM}")
+    let histM := histTicks next t1 (t1 + 1) 0 8 t0
+    if H.mapM obsTick != some histM then .error (.mismatch s!"{what}: historical ticks differ from the model's {histM}")
+    a := a.add (s!"cronlive-{sh}-" ++ (if ticks.isEmpty then "silent" else "fires"))
+    nt := nt || !ticks.isEmpty
+    i := i + 1
+  a := a.add (if tz > 0 then "cronlive-host-east-of-utc" else if tz < 0 then "cronlive-host-west-of-utc" else "cronlive-host-utc")
+  a := a.addIf (tz % 3600 != 0) "cronlive-host-fractional-hour-zone"
+  pure { a with nt := a.nt || nt }
 
 def judge (_id : String) (lines : Array String) : Verdict :=
   let r : J Acc := lines.foldlM (init := ({} : Acc)) (fun a l =>
@@ -449,6 +525,7 @@ def judge (_id : String) (lines : Array String) : Verdict :=
     | some "livereal" => judgeLiveReal a l op obs
     | some "dims" => judgeDims a l op obs
     | some "sched" => judgeSched a l op obs
+    | some "cronlive" => judgeCronLive a l op obs
     | _ => bad l)
   match r with
   | .ok a => .ok a.nt a.br.reverse
